@@ -180,12 +180,13 @@ class Src:
         return f
 
 
-def split_top(s, sep=","):
+def split_top(s, sep=",", angle=True):
     parts, depth, cur = [], 0, []
+    op, cl = ("(<[{", ")>]}") if angle else ("([{", ")]}")
     for c in s:
-        if c in "(<[{":
+        if c in op:
             depth += 1
-        elif c in ")>]}":
+        elif c in cl:
             depth -= 1
         if c == sep and depth == 0:
             parts.append("".join(cur))
@@ -476,6 +477,13 @@ def exec_job(job, workdir):
             if rc != 0:
                 return fail("error", "goto-instrument --dfcc failed")
             cur = nxt
+        if job.kind == "M" and job.loop_contracts:
+            nxt = os.path.join(d, "b.gb")
+            rc, so, se, sec = run(["goto-instrument", "--apply-loop-contracts", cur, nxt], d, 300)
+            log.append(so[-4000:] + se[-4000:])
+            if rc != 0:
+                return fail("error", "goto-instrument --apply-loop-contracts failed")
+            cur = nxt
         cmd = ["cbmc", cur, "--json-ui", "--trace"]
         if job.solver == "z3":
             cmd += ["--z3"]
@@ -637,6 +645,7 @@ class Report:
             self.functions.update(job.functions)
             be = {"R": "cbmc 6.11 symex + SMT2 back end, z3 5.1 (rationals = SMT Real)",
                   "I": "goto-instrument --dfcc + cbmc %s" % (job.solver or "SAT(minisat)"),
+                  "M": "contract encoding by tools/layert.py + goto-instrument --apply-loop-contracts + cbmc %s" % (job.solver or "SAT(minisat)"),
                   "P": "cbmc %s" % (job.solver or "SAT(minisat)")}[job.kind]
             if job.status != "ok":
                 self.inconclusive.append("%s: %s: %s" % (job.name, job.status, job.log[-600:].replace("\n", " | ")))
